@@ -11,11 +11,13 @@ ASSUME = [
 
 
 def configs(tier):
-    feats = {"git", "c2", "restart"}
+    feats = {"git", "c2", "restart", "mkcol"}
     if tier == "thorough":
         feats = feats | {"fsck", "post"}
     bodies = {"cal": ["X", "X2", "XR", "BAD"], "ab": ["K"], "c2": ["X"]}
-    props = {"cal": {"displayname": ["d1", None]}}
+    # None = DAV:remove; removing a property that was never set changes nothing and must add no commit
+    # "" = DAV:set with an empty element (how clients clear a property)
+    props = {"cal": {"displayname": ["d1", None, ""], "calorder": [None, ""], "calcolor": [""]}, "c2": {"displayname": [None, ""], "comment": [""]}}
     out = [
         Config(front="wsgi", backend="tree", prefix="/", features=feats | {"fsck"}, bodies=bodies, props=props, oracles={"C09"}),
         Config(front="wsgi", backend="bare", prefix="/", features=feats, bodies=bodies, props=props, oracles={"C09"}),
